@@ -45,6 +45,7 @@ type FsCase struct {
 	MemFS      bool   `json:"memfs,omitempty"`       // FSLibrary over the in-memory FS instead
 	RootSwitch string `json:"root_switch,omitempty"` // after a first round of loads the root symlink is re-pointed to this directory
 	Cwd        string `json:"cwd,omitempty"`         // working directory relative to base ("" = base); relative roots are spelled against it
+	CwdVia     string `json:"cwd_via,omitempty"`     // the working directory is entered through this path (a directory link) and $PWD spells it that way
 
 	hintLoc, hintLoader, hintVia string
 }
@@ -149,6 +150,18 @@ func (fsEngine) Gen(r *Rand, tier string) any {
 				c.Cwd = "root/a"
 				c.RootSpec = PickStr(r, []string{"..", "../", "b/../..", "../../root", "../."})
 			}
+		}
+		if r.Chance(1, 8) {
+			// the process entered its working directory through a directory
+			// link that lives inside the root and points outside it (a shell
+			// `cd`): $PWD keeps the logical spelling, the kernel resolves
+			// relative paths against the physical directory
+			t := PickStr(r, []string{"../../outside/o", "@/outside/o", "@/outside", "../../root-x", "../../ro"})
+			add("root/a/lwd", "link", t)
+			c.CwdVia = "root/a/lwd"
+			c.Cwd = strings.TrimPrefix(strings.TrimPrefix(t, "../../"), "@/")
+			up := strings.Repeat("../", strings.Count(c.Cwd, "/")+1)
+			c.RootSpec = PickStr(r, []string{"@/root", "@/root/", "@/rootlink", up + "root", up + "rootlink/", up + "root/a/.."})
 		}
 		if r.Chance(1, 5) {
 			// a deployment switch: the root is a symlink that is re-pointed between two rounds of loads
@@ -483,10 +496,29 @@ func (fsEngine) Run(ci any, st *Stats) *Violation {
 		return nil // an unbuildable (shrunk) layout is not a case
 	}
 	cwd, _ := os.Getwd()
-	if err := os.Chdir(filepath.Join(d.base, c.Cwd)); err != nil {
+	enter := c.Cwd
+	if c.CwdVia != "" {
+		if real, kind, ok := d.spec.resolve(strings.Split(c.CwdVia, "/")); !ok || kind != "dir" || real != c.Cwd {
+			return nil // a shrunk layout whose link no longer leads to the working directory is not a case
+		}
+		enter = c.CwdVia
+	}
+	if err := os.Chdir(filepath.Join(d.base, enter)); err != nil {
 		return nil // a shrunk layout without the working directory is not a case
 	}
-	defer func() { _ = os.Chdir(cwd) }()
+	oldPWD, hadPWD := os.LookupEnv("PWD")
+	if c.CwdVia != "" {
+		_ = os.Setenv("PWD", filepath.Join(d.base, enter))
+		st.Inc("config_working_directory_entered_through_link")
+	}
+	defer func() {
+		_ = os.Chdir(cwd)
+		if hadPWD {
+			_ = os.Setenv("PWD", oldPWD)
+		} else {
+			_ = os.Unsetenv("PWD")
+		}
+	}()
 
 	// the root exactly as spelled (trailing separators, "..", "./" are not cleaned away)
 	rootDir := c.RootSpec
@@ -503,7 +535,7 @@ func (fsEngine) Run(ci any, st *Stats) *Violation {
 	if _, _, ok := d.spec.resolve(rootComps()); !ok {
 		return nil
 	}
-	h := NewHash().Str(c.RootSpec).Str(c.Cwd)
+	h := NewHash().Str(c.RootSpec).Str(c.Cwd).Str(c.CwdVia)
 	nontrivial := false
 	if c.Cwd != "" {
 		st.Inc("config_root_relative_to_working_directory")
@@ -607,6 +639,9 @@ func (fsEngine) Run(ci any, st *Stats) *Violation {
 			rootText := c.RootSpec
 			if c.Cwd != "" {
 				rootText += " (working directory @/" + c.Cwd + ")"
+			}
+			if c.CwdVia != "" {
+				rootText += " (entered as @/" + c.CwdVia + ")"
 			}
 			return Violf(oracle, "root %s, loading file %q, location %q via %s: %s", rootText, ld.loader, strings.ReplaceAll(ld.loc, d.base, "@"), ld.via, msg)
 		}
